@@ -31,6 +31,8 @@ def build(v):
         return v[1]
     if k == "fltx":
         return float(v[1])
+    if k == "tuple":
+        return tuple(v[1])
     if k == "list":
         return []
     if k == "dict":
